@@ -404,8 +404,8 @@ func (pr *Prover) discharge(vc *VC, o *Oblig, prelude string, axioms []string) *
 	t1 := pr.timeout
 	if o.Kind == "canary" && t1 > 2*time.Second {
 		t1 = 2 * time.Second // a vacuous context is refuted at once; anything slower is "not refuted"
-	} else if t1 > 4*time.Second {
-		t1 = 4 * time.Second
+	} else if t1 > 8*time.Second {
+		t1 = 8 * time.Second // (the slowest obligation takes 2.6 s on an idle machine; the limit leaves room for a loaded one)
 	}
 	stage1 := []attempt{{cfg: cfgs[0], file: file, timeout: t1}}
 	var s1extra []string
